@@ -6,6 +6,21 @@ import OG.C14.Model
 
 namespace OG.C14
 
+/-! ### int64 arithmetic -/
+
+/-- the int64 range (Go `int64`, `time.Duration`, unix nanoseconds). -/
+def InI64 (x : Int) : Prop := -9223372036854775808 ≤ x ∧ x ≤ 9223372036854775807
+
+/-- inside the range the two's-complement wrap is the identity. -/
+theorem wrap64_of_range {x : Int} (h : InI64 x) : wrap64 x = x := by
+  unfold wrap64
+  unfold InI64 at h
+  omega
+
+theorem wrap64_range (x : Int) : InI64 (wrap64 x) := by
+  unfold wrap64 InI64
+  omega
+
 /-! ### the regenerated predicates -/
 
 theorem shardIsExpired_iff (now d e : Int) : shardIsExpired now d e = true ↔ d ≠ 0 ∧ e + d < now := by
@@ -187,7 +202,9 @@ theorem markFirstGE_sids (id : Nat) (l : List CShard) :
   | nil => rfl
   | cons a r ih =>
     simp only [markFirstGE]
-    split <;> simp [ih]
+    split
+    · split <;> simp
+    · simp [ih]
 
 theorem pruneGroup_skel (id : Nat) (g : Group) : Skel (pruneGroup id g) g := by
   unfold pruneGroup
@@ -969,7 +986,10 @@ theorem mem_markFirstGE {id : Nat} {l : List CShard} {c' : CShard} (h : c' ∈ m
     simp only [markFirstGE] at h
     split at h
     · rcases List.mem_cons.mp h with rfl | h
-      · exact ⟨a, List.mem_cons_self, rfl, rfl, fun _ => rfl⟩
+      · refine ⟨a, List.mem_cons_self, ?_⟩
+        split
+        · exact ⟨rfl, rfl, fun _ => rfl⟩
+        · exact ⟨rfl, rfl, fun h => h⟩
       · exact ⟨c', List.mem_cons_of_mem _ h, rfl, rfl, fun h => h⟩
     · rcases List.mem_cons.mp h with rfl | h
       · exact ⟨c', List.mem_cons_self, rfl, rfl, fun h => h⟩
@@ -987,7 +1007,11 @@ theorem markFirstGE_marks {id : Nat} {l : List CShard} (hs : (l.map (·.sid)).Pa
     split at h
     · rename_i hle
       rcases List.mem_cons.mp h with rfl | h
-      · rfl
+      · split at hid
+        · rename_i he
+          simp [he]
+        · rename_i he
+          exact absurd (by simpa using hid) (by simpa using he)
       · have := hs.1 c'.sid (List.mem_map.mpr ⟨c', h, rfl⟩)
         omega
     · rename_i hle
@@ -1457,7 +1481,10 @@ theorem markFirstGE_only {id : Nat} {l : List CShard} (hs : (l.map (·.sid)).Pai
         · have : a.sid < id := hs.1 id h1
           omega
       rcases List.mem_cons.mp h with rfl | h
-      · exact ⟨a, List.mem_cons_self, rfl, rfl, Or.inr ha⟩
+      · refine ⟨a, List.mem_cons_self, ?_⟩
+        split
+        · exact ⟨rfl, rfl, Or.inr ha⟩
+        · exact ⟨rfl, rfl, Or.inl rfl⟩
       · exact ⟨c', List.mem_cons_of_mem _ h, rfl, rfl, Or.inl rfl⟩
     · rename_i hle
       rcases List.mem_cons.mp h with rfl | h
